@@ -1418,7 +1418,9 @@ class Container:
             raise ValueError("Solution is impossible to create.")
         # (the solvent is what a stated total leaves over: when the solutes make up that total by themselves - '600 kg' and
         # '400 kg' in '1000 kg' - it comes out as the cancellation noise of the difference, of either sign)
-        if total_quantity is not None and abs(a[index][n] * xs[n]) <= 1e-12 * abs(b[index]):
+        # (in the unit of the total - a total in activity units says nothing about a solvent that has none - and to the
+        # digits a float carries: a solvent that really is 1e-13 of the total is resolved, and served)
+        if total_quantity is not None and a[index][n] != 0 and abs(a[index][n] * xs[n]) <= 1e-15 * abs(b[index]):
             raise ValueError("Solution is impossible to create. (The solutes leave no room for the solvent.)")
         # an amount that vanishes when stored (rounded to the internal precision) is not a solution either
         for x, substance in zip(xs, solute + [solvent]):
